@@ -187,3 +187,45 @@ Theorem translator_clean : GenGain.gen_problems = nil.
 Proof. exact GainSites.translator_clean. Qed.
 Print Assumptions solveLin_call_ok.
 Print Assumptions eegmeg_ranges_ok.
+
+(* ---- GainEEGMEGadjoint fills its right-hand side with getlin (the only library user of SparseMatrix::getlin):
+   with getlin = row (C14's theorem for the sparse container; Matrix::getlin: C13) the row-by-row construction is the
+   stacked matrix of the model above; with a getlin that loses the entry of column 0 the combined EEG lead field is wrong
+   while GainEEGadjoint (which never calls getlin) is right -- the formal counterpart of a getlin defect. ---- *)
+Section C04_getlin.
+Variable R : fieldType.
+Variables n me mm nd : nat.
+Variable H : 'M[R]_n.
+Variable A : 'M[R]_(me, n).
+Variable B : 'M[R]_(mm, n).
+Variable P : 'M[R]_(mm, nd).
+Variable dsm1 : 'I_nd -> 'cV[R]_n.
+Variable solveLin : 'M[R]_n -> forall k, 'M[R]_(n, k) -> 'M[R]_(n, k).
+Variable getlinA : 'I_me -> 'rV[R]_n.
+Variable getlinB : 'I_mm -> 'rV[R]_n.
+
+Theorem combined_rows_eq_eeg :
+  (forall i, getlinA i = row i A) -> (forall i, getlinB i = row i B) ->
+  gain_eegmeg_rows_eeg H dsm1 solveLin getlinA getlinB = gain_eegmeg_adjoint_eeg H A B dsm1 solveLin.
+Proof. exact: Gain.combined_rows_eq_eeg. Qed.
+
+Theorem combined_rows_eq_meg :
+  (forall i, getlinA i = row i A) -> (forall i, getlinB i = row i B) ->
+  gain_eegmeg_rows_meg H P dsm1 solveLin getlinA getlinB = gain_eegmeg_adjoint_meg H A B P dsm1 solveLin.
+Proof. exact: Gain.combined_rows_eq_meg. Qed.
+End C04_getlin.
+Print Assumptions combined_rows_eq_eeg.
+
+(* what-if witness (not a refutation of the faithful model): its situation -- an electrode row with an entry in column 0 --
+   is replayed on the real code by corpus/C04/scalp-first-electrode-at-unknown-0.json on every run *)
+Example lossy_getlin_breaks_combined :
+  let H : 'M[rat]_1 := 1%:M in
+  let A : 'M[rat]_(1, 1) := 1%:M in
+  let B : 'M[rat]_(0, 1) := 0 in
+  let dsm1 : 'I_1 -> 'cV[rat]_1 := fun _ => 1%:M in
+  let solve := (fun (M : 'M[rat]_1) k (X : 'M[rat]_(1, k)) => invmx M *m X) in
+  let getlin_bad : 'I_1 -> 'rV[rat]_1 := fun i => \row_j (if (j : nat) == 0%N then 0 else A i j) in
+  gain_eegmeg_rows_eeg H dsm1 solve getlin_bad (fun i => row i B) 0 0 = 0 /\
+  gain_adjoint H A dsm1 solve 0 0 = 1.
+Proof. exact: Gain.getlin_defect_breaks_combined. Qed.
+Print Assumptions lossy_getlin_breaks_combined.
